@@ -15,6 +15,14 @@ package racetest
 //	                                                        all Commits are done GetRevision() >= max r and the cursor >= max r
 //	deal_after_commit_is_above                              a goroutine's Deal() after its own Commit(r) returns > r; the Deal()
 //	                                                        after all Commits returns > max r
+//	dealt_stays_in_window                                   a Deal result v and a GetRevision() sample c taken AFTER it: v <= c + W - 1
+//	cursor_stays_in_window / refused_only_when_window_full  TestTsoWindow: Init(0), nobody commits: exactly W-1 revisions are dealt by
+//	                                                        concurrent goroutines, every further Deal is refused; one Commit(k) frees
+//	                                                        exactly k more; with a lagging committer every dealt revision stays in the window
+//
+// W = tsoWindow below = tso.MaxInFlight (not referenced by name, so that this file also compiles against a tree from
+// before 624b477, where the assertions then fail on a concrete input; that the constant in the source has this value and
+// equals the backend's slot ring is KB.C18Cas.source_matches_lts).
 //
 // Run by kbcheck (props c15 / c18 via kbcheck/tsocas.py; prop c19 runs the whole package under -race).
 // Kept well under 2 s (KB_TSO_MS, default 300 ms of rounds).
@@ -25,11 +33,15 @@ import (
 	"os"
 	"strconv"
 	"sync"
+	"sync/atomic"
 	"testing"
 	"time"
 
 	"github.com/kubewharf/kubebrain/pkg/backend/tso"
 )
+
+// tsoWindow is tso.MaxInFlight (see the package comment of this file).
+const tsoWindow = 100000
 
 type tsoLog struct {
 	deals    []uint64
@@ -75,7 +87,13 @@ func tsoRound(t *testing.T, rng *rand.Rand, workers, opsPer int, start uint64, u
 			deal := func() uint64 {
 				v, err := ts.Deal()
 				if err != nil {
-					bad("Deal error %v", err)
+					// fewer than tsoWindow-1 revisions are dealt in a round and every Commit raises committed before deal:
+					// the window is never full here (cursor_stays_in_window), a refusal would be unjustified
+					bad("Deal refused (%v) although fewer than %d revisions were dealt in this round", err, tsoWindow-1)
+					return lastDeal
+				}
+				if c := ts.GetRevision(); v >= c+tsoWindow {
+					bad("Deal() = %d with committed revision %d afterwards: outside the window of %d", v, c, tsoWindow)
 				}
 				if v <= lastDeal {
 					bad("Deal results of one goroutine not increasing: %d after %d", v, lastDeal)
@@ -115,7 +133,7 @@ func tsoRound(t *testing.T, rng *rand.Rand, workers, opsPer int, start uint64, u
 						bad("after Commit(%d) GetRevision() = %d", rev, v)
 					}
 					if r.Intn(2) == 0 {
-						if v := deal(); v <= rev {
+						if v := deal(); v <= rev && len(l.problems) == 0 {
 							bad("after Commit(%d) Deal() = %d", rev, v)
 						}
 					}
@@ -146,7 +164,7 @@ func tsoRound(t *testing.T, rng *rand.Rand, workers, opsPer int, start uint64, u
 	if v := ts.GetRevision(); v < maxR {
 		t.Errorf("tso-cas: all Commits done, max r = %d, but committed revision = %d", maxR, v)
 	}
-	if v, _ := ts.Deal(); v <= maxR {
+	if v, err := ts.Deal(); err != nil || v <= maxR {
 		t.Errorf("tso-cas: all Commits done, max r = %d, but the next Deal() = %d (deal cursor below max r)", maxR, v)
 	}
 	return
@@ -175,4 +193,158 @@ func TestTsoCas(t *testing.T) {
 		}
 	}
 	t.Logf("tso-cas: rounds=%d ops=%d deals=%d (Commit/Deal/GetRevision on tso.NewTSO(), up to 8 goroutines)", rounds, ops, deals)
+}
+
+// dealUntilRefused: `workers` goroutines call Deal() until it refuses (or a cap far above what the window allows is
+// reached); returns everything dealt and the number of refusals seen.
+func dealUntilRefused(ts tso.TSO, workers, capEach int) (dealt []uint64, refused int) {
+	var mu sync.Mutex
+	var wg sync.WaitGroup
+	begin := make(chan struct{})
+	for w := 0; w < workers; w++ {
+		wg.Add(1)
+		go func() {
+			defer wg.Done()
+			<-begin
+			var mine []uint64
+			ref := 0
+			for i := 0; i < capEach; i++ {
+				v, err := ts.Deal()
+				if err != nil {
+					ref++
+					break
+				}
+				mine = append(mine, v)
+			}
+			mu.Lock()
+			dealt = append(dealt, mine...)
+			refused += ref
+			mu.Unlock()
+		}()
+	}
+	close(begin)
+	wg.Wait()
+	return
+}
+
+func checkDealtRange(t *testing.T, what string, dealt []uint64, from, to uint64) {
+	// exactly the revisions from..to, each once
+	if uint64(len(dealt)) != to-from+1 {
+		t.Errorf("tso-window: %s: %d revisions dealt, want exactly %d (%d..%d)", what, len(dealt), to-from+1, from, to)
+	}
+	seen := make(map[uint64]bool, len(dealt))
+	for _, v := range dealt {
+		if v < from || v > to {
+			t.Errorf("tso-window: %s: revision %d dealt, outside %d..%d", what, v, from, to)
+			return
+		}
+		if seen[v] {
+			t.Errorf("tso-window: %s: revision %d dealt twice", what, v)
+			return
+		}
+		seen[v] = true
+	}
+}
+
+func TestTsoWindow(t *testing.T) {
+	const workers = 8
+	capEach := tsoWindow/workers + 4000
+	// 1. nobody commits: exactly tsoWindow-1 revisions, then refusals
+	ts := tso.NewTSO()
+	ts.Init(0)
+	dealt, refused := dealUntilRefused(ts, workers, capEach)
+	checkDealtRange(t, "committed=0", dealt, 1, tsoWindow-1)
+	if v, err := ts.Deal(); err == nil {
+		t.Errorf("tso-window: committed=0, %d revisions dealt: Deal() = %d, want a refusal", len(dealt), v)
+	}
+	if c := ts.GetRevision(); c != 0 {
+		t.Errorf("tso-window: committed revision moved to %d without a Commit", c)
+	}
+	// 2. Commit(k) frees exactly k slots (the refusals above consumed nothing)
+	const k = 1234
+	ts.Commit(k)
+	dealt2, refused2 := dealUntilRefused(ts, workers, capEach)
+	checkDealtRange(t, "committed=1234", dealt2, tsoWindow, tsoWindow-1+k)
+	if v, err := ts.Deal(); err == nil {
+		t.Errorf("tso-window: committed=%d: Deal() = %d, want a refusal", k, v)
+	}
+	// 3. a committer lagging behind concurrent dealers: every dealt revision is inside the window of a committed
+	// revision sampled after it; dealers that are refused yield and try again
+	ts = tso.NewTSO()
+	ts.Init(0)
+	const target = 3 * tsoWindow
+	var hi uint64 // highest revision dealt so far (atomic max), what the committer follows
+	var wg sync.WaitGroup
+	var mu sync.Mutex
+	total, retries := 0, 0
+	var problems []string
+	stop := make(chan struct{})
+	done := make(chan struct{})
+	deadline := time.Now().Add(5 * time.Second)
+	for w := 0; w < workers; w++ {
+		wg.Add(1)
+		go func() {
+			defer wg.Done()
+			n, r := 0, 0
+			var bad []string
+			var last uint64
+			for n < target/workers {
+				v, err := ts.Deal()
+				if err != nil {
+					r++
+					if r%64 == 0 && time.Now().After(deadline) {
+						break
+					}
+					time.Sleep(20 * time.Microsecond)
+					continue
+				}
+				n++
+				if c := ts.GetRevision(); v >= c+tsoWindow && len(bad) < 3 {
+					bad = append(bad, fmt.Sprintf("Deal() = %d with committed revision %d afterwards: outside the window", v, c))
+				}
+				if v <= last && len(bad) < 3 {
+					bad = append(bad, fmt.Sprintf("Deal() = %d after %d", v, last))
+				}
+				last = v
+				for {
+					h := atomic.LoadUint64(&hi)
+					if h >= v || atomic.CompareAndSwapUint64(&hi, h, v) {
+						break
+					}
+				}
+			}
+			mu.Lock()
+			total += n
+			retries += r
+			problems = append(problems, bad...)
+			mu.Unlock()
+		}()
+	}
+	go func() {
+		// the committer: follows the dealers at a distance of three quarters of the window, so that the window
+		// fills up (refusals) whenever the dealers are faster than it
+		defer close(done)
+		for {
+			select {
+			case <-stop:
+				return
+			default:
+			}
+			if h := atomic.LoadUint64(&hi); h > 3*tsoWindow/4 {
+				ts.Commit(h - 3*tsoWindow/4)
+			}
+			time.Sleep(300 * time.Microsecond)
+		}
+	}()
+	wg.Wait()
+	close(stop)
+	<-done
+	for _, p := range problems {
+		t.Errorf("tso-window: lagging committer: %s", p)
+	}
+	if total != target/workers*workers {
+		t.Errorf("tso-window: lagging committer: only %d of %d revisions dealt (refusals never ended)", total, target/workers*workers)
+	}
+	t.Logf("tso-window: W=%d: dealt %d then %d refusals with committed=0; %d more after Commit(%d), %d refusals; lagging committer: %d dealt, %d refusals retried",
+		tsoWindow, len(dealt), refused+1, len(dealt2), k, refused2+1, total, retries)
 }
